@@ -30,12 +30,12 @@ PROPS = {
     },
     "C05": {
         "generators": [{"name": "C05"}],
-        "explanation": "Theorems compact_pick_ok, compact_step_ok (each micro-step preserves the contents and the invariants Inv, CInv, MetaOK), writers preserve CInv, db_compact_ok, no resurrection after recovery. PhysConc.phys_creach_ok: any interleaving of compaction picks / micro-steps with writers on the PHYSICAL index returns what the plain map returns, physical invariant in every intermediate state. Tie: Compact stepped yield point by yield point with writer operations in between (also Puts of new keys that split buckets inside the per-record windows), crash inside, dumps; ShapeCheck.compact_order.",
+        "explanation": "Theorems compact_pick_ok, compact_step_ok (each micro-step preserves the contents and the invariants Inv, CInv, MetaOK), writers preserve CInv, db_compact_ok, no resurrection after recovery. PhysConc.phys_creach_ok: any interleaving of compaction picks / micro-steps with writers on the PHYSICAL index returns what the plain map returns, physical invariant in every intermediate state. Tie: Compact alongside goroutines that make the index grow (every key and Count afterwards); Compact stepped yield point by yield point with writer operations in between (also Puts of new keys that split buckets inside the per-record windows), crash inside, dumps; ShapeCheck.compact_order.",
         "assumptions": COMMON_ASSUME,
     },
     "C06": {
         "generators": [{"name": "C06"}],
-        "explanation": "PowerLoss.v: C06_synced_writes_survive: for every history of Put/Delete/Sync/compaction steps, every later point and every admissible power-loss image (per file: dropped or torn suffix of unsynced data), recovery succeeds and the contents are those of the last sync point followed by a prefix of the later operations; sensitivity witnesses for the two flushes it needs. PowerLoss2.v: the same over histories of any number of epochs separated by process crashes (any event, torn writes), recovering Opens that may die themselves, kills and Close / reopen, with the sync point before any number of recoveries, and for a power failure in the middle of a recovering Open. PowerLoss3.v: ONE statement for a power failure after ANY number of events of such a history (C06_power_loss_at_any_instant; instant_dichotomy: the lock file exists, or the instant lies in the window after a completed Close), also with process crashes inside clean Opens. Tie: power-loss images enumerated per instant from the recorded calls and reopened, also across an earlier process crash; ShapeCheck.seal_syncs / compact_order.",
+        "explanation": "PowerLoss.v: C06_synced_writes_survive: for every history of Put/Delete/Sync/compaction steps, every later point and every admissible power-loss image (per file: dropped or torn suffix of unsynced data), recovery succeeds and the contents are those of the last sync point followed by a prefix of the later operations; sensitivity witnesses for the two flushes it needs. PowerLoss2.v: the same over histories of any number of epochs separated by process crashes (any event, torn writes), recovering Opens that may die themselves, kills and Close / reopen, with the sync point before any number of recoveries, and for a power failure in the middle of a recovering Open. PowerLoss3.v: ONE statement for a power failure after ANY number of events of such a history (C06_power_loss_at_any_instant; instant_dichotomy: the lock file exists, or the instant lies in the window after a completed Close), also with process crashes inside clean Opens. PhysPowerLoss.v: the power-loss model for any index, related images in both directions, C06_synced_writes_survive on the physical index. Tie: one data call after a sync point failing once (transient write / fsync error) with Compact in the stretch, a later Sync returning nil, power failure (found D15); power-loss images enumerated per instant from the recorded calls and reopened, also across an earlier process crash; ShapeCheck.seal_syncs / compact_order.",
         "assumptions": COMMON_ASSUME + ["power-loss model exactly as the property words it"],
     },
     "C07": {
@@ -51,7 +51,7 @@ PROPS = {
     },
     "C09": {
         "generators": [{"name": "C09"}],
-        "explanation": "PowerLoss.v: C09_closed_is_durable (every admissible power-loss image after a completed Close is the closed directory), C09_reopen (next Open without recovery, closed contents), C09_power_loss_during_reopen; PowerLoss2.v: the same after histories of any number of epochs (C09_reopen_epochs) and a power failure DURING Close (C09_power_loss_during_close); PowerLoss3.v: for histories of epochs, in the window after a completed Close and inside the next clean Open every admissible image opens to EXACTLY the closed contents. Tie: power-loss images at every call from the return of Close to the completion of the next Open, reopened; Close with each of its data calls (WriteAt / Sync / Truncate) failing once: whenever it still returns nil, power-loss images right after it; ShapeCheck.close_syncs / close_order.",
+        "explanation": "PowerLoss.v: C09_closed_is_durable (every admissible power-loss image after a completed Close is the closed directory), C09_reopen (next Open without recovery, closed contents), C09_power_loss_during_reopen; PowerLoss2.v: the same after histories of any number of epochs (C09_reopen_epochs) and a power failure DURING Close (C09_power_loss_during_close); PowerLoss3.v: for histories of epochs, in the window after a completed Close and inside the next clean Open every admissible image opens to EXACTLY the closed contents; PhysPowerLoss.v: on the physical index every admissible image after Close holds exactly the index Close wrote and the clean Open that trusts it answers the closed contents. Tie: power-loss images at every call from the return of Close to the completion of the next Open, reopened; Close with each of its data calls (WriteAt / Sync / Truncate) failing once: whenever it still returns nil, power-loss images right after it; ShapeCheck.close_syncs / close_order.",
         "assumptions": COMMON_ASSUME + ["power-loss model exactly as the property words it"],
     },
     "C10": {
